@@ -119,6 +119,8 @@ def c17_worker(res: Result, i: int, n: int) -> None:
             cells.add(("kv", kv))
         res.count("batches")
         res.count("records", len(b["records"]))
+        if k % 4 == 1:
+            _failed_write_noise(res, rng, b)
         try:
             new = NewRecordBatch(producer_id=b["producer_id"], producer_epoch=b["producer_epoch"], partition_leader_epoch=b["partition_leader_epoch"],
                                  base_sequence=b["base_sequence"], records=to_kio_records(b), attributes=b["attributes"])
@@ -175,6 +177,43 @@ def c17_worker(res: Result, i: int, n: int) -> None:
             res.count("empty_batch_rejected")
     res.coverage["distinct_cells"] = sorted("|".join(map(str, c)) for c in cells)
     res.coverage["distinct_batches"] = len(distinct)
+
+
+class _FailingSink(io.BytesIO):
+    """A real BytesIO (the batch writer uses tell()/getvalue() on its own scratch buffers, and may on the sink) whose k-th write raises."""
+
+    def __init__(self, fail_at: int) -> None:
+        super().__init__()
+        self._left = fail_at
+
+    def write(self, data):  # noqa: ANN001, ANN201
+        if self._left <= 0:
+            raise BrokenPipeError("injected")
+        self._left -= 1
+        return super().write(data)
+
+
+def _failed_write_noise(res: Result, rng, b: dict) -> None:  # noqa: ANN001
+    """History noise for C17: earlier batch writes in this process that fail part-way (sink error at a random write call, a record
+    whose value is not bytes).  Their exceptions are not judged; the next batch must still be written correctly."""
+    import dataclasses
+
+    from kio.records.schema import NewRecordBatch
+    from kio.records.writers import write_new_batch
+
+    res.count("failed_write_noise")
+    recs = to_kio_records(b)
+    new = NewRecordBatch(producer_id=1, producer_epoch=1, base_sequence=0, records=recs, attributes=0)
+    try:
+        write_new_batch(_FailingSink(rng.randrange(6)), new)
+    except Exception:  # noqa: BLE001
+        pass
+    try:
+        j = rng.randrange(len(recs))
+        poisoned = tuple(dataclasses.replace(r, value="not bytes") if i == j else r for i, r in enumerate(recs))  # type: ignore[arg-type]
+        write_new_batch(io.BytesIO(), dataclasses.replace(new, records=poisoned))
+    except Exception:  # noqa: BLE001
+        pass
 
 
 def run_c17(tier_: str) -> int:
@@ -356,9 +395,19 @@ def c18_worker(res: Result, i: int, n: int) -> None:
             b["last_offset_delta"] = rng.randint(0, 2**31 - 1)
             b["max_timestamp"] = min(2**63 - 1, b["max_timestamp"] + rng.randint(0, 10**6))
         work.append((f"generated #{k} {cell['n']}/{cell['order']}/{cell['time']}", recref.encode_batch(b), b))
+    prev_raw = None
     for label, raw, b in work:
         rng = common.rng_for("C18", "damage", label)
         res.count("batches")
+        if prev_raw is not None and rng.random() < 0.5:
+            # history noise: an earlier read in this process failed (another batch, cut off / corrupted)
+            res.count("failed_read_noise")
+            for bad in (prev_raw[: rng.randrange(len(prev_raw))], prev_raw[:30] + bytes([prev_raw[30] ^ 0x10]) + prev_raw[31:]):
+                try:
+                    read_batch(io.BytesIO(bad))
+                except Exception:  # noqa: BLE001
+                    pass
+        prev_raw = raw
         ok = _identity(res, raw, b, label)
         distinct.add(hashlib.sha256(raw).digest()[:12])
         if ok or True:
